@@ -432,6 +432,25 @@ func (c *streamCtx) histShapes(prop string) []func(v int) *histSpec {
 		h.Fleet = true
 		return h
 	}
+	// fleet-mode scale-ups whose size is a multiple (or not) of the provider's attach batch of 20: the whole request is
+	// attached inside the batching loop and the remainder is empty; an accepted request must still lock the group
+	shapes["fleet-batch"] = func(v int) *histSpec {
+		want := []int{20, 40, 21, 19}[v%4]
+		pct := []int64{140, 210, 143, 136}[v%4]
+		mk := func(pfx string) [][]string { return [][]string{mkIDs(pfx, want)} }
+		init := c.histWorld(20, pct, func(b *gbuild) {
+			b.template = "lt-g1"
+			b.o.ScaleUpCoolDownPeriod = "3m"
+			b.o.MaxNodes, b.asgMax = 150, 150
+			b.aws.FleetInstances = mk("i-fa-")
+		})
+		h := hist(init, "fleet-batch",
+			step(0, 0, fmt.Sprintf("fleet scale-up by %d", want)).withOracle("g1", awsFail(func(o *AwsOracle) { o.FleetInstances = mk("i-fa-") })),
+			step(60, 0, "inside the cool-down").withOracle("g1", awsFail(func(o *AwsOracle) { o.FleetInstances = mk("i-fb-") })),
+			step(60, 0, "still inside").withOracle("g1", awsFail(func(o *AwsOracle) { o.FleetInstances = mk("i-fc-") })))
+		h.Fleet = true
+		return h
+	}
 	// the node size changes between scans (nodes replaced by another instance type) and the group later scales up from zero:
 	// the cache must hold the size seen in the LAST non-empty scan
 	shapes["node-size-change"] = func(v int) *histSpec {
@@ -470,6 +489,7 @@ func (c *streamCtx) histShapes(prop string) []func(v int) *histSpec {
 		"C15":  {"repeated-scale-down", "seconds-apart", "external-taints", "double-fault", "restart", "cooldown", "cordon-swap"},
 		"C19":  {"lister-lag", "transient-failure", "taint-wait-reap", "two-groups"},
 		"C13S": {"cordon-annotate", "cordon-swap", "repeated-scale-down"},
+		"C18S": {"cooldown", "transient-failure", "from-zero", "restart"},
 		"C05S": {"node-size-change", "from-zero", "node-size-change", "restart", "cooldown"},
 		"C20":  {"transient-failure", "lister-lag", "external-taints", "constructed-earlier", "from-zero"},
 	}
@@ -484,6 +504,12 @@ func (c *streamCtx) histShapes(prop string) []func(v int) *histSpec {
 	if prop == "SCAN" || prop == "C20" || prop == "C04" {
 		out = append(out, shapes["fleet"]) // last: rare
 	}
+	if prop == "C02" {
+		out = append(out, shapes["fleet-batch"]) // last: rare
+	}
+	if prop == "C18S" {
+		out = append(out, shapes["fleet"]) // last: rare
+	}
 	return out
 }
 
@@ -491,7 +517,7 @@ func (c *streamCtx) histShapes(prop string) []func(v int) *histSpec {
 func (c *streamCtx) histories(prop string, n int) []genCase {
 	out := []genCase{}
 	shapes := c.histShapes(prop)
-	fleetLast := prop == "SCAN" || prop == "C20" || prop == "C04"
+	fleetLast := prop == "SCAN" || prop == "C20" || prop == "C04" || prop == "C02" || prop == "C18S"
 	ns := len(shapes)
 	if fleetLast {
 		ns--
@@ -509,6 +535,9 @@ func (c *streamCtx) histories(prop string, n int) []genCase {
 	}
 	if fleetLast {
 		nf := 1
+		if prop == "C02" || prop == "C18S" {
+			nf = 2
+		}
 		if c.thorough {
 			nf = 6
 		}
